@@ -54,8 +54,10 @@ type FuncContract struct {
 	Ensures  []Clause
 	Loops    map[int]*LoopSpec
 	Safe     bool
+	SafeKinds []string // empty = every implicit panic; otherwise only these kinds (type-assert, index, nil-deref, ...)
 	Pure     bool
 	Trusted  bool // contract is assumed at call sites, body not verified (listed in evidence)
+	AssumeRequires bool // callers assume the preconditions instead of proving them (listed in evidence)
 	Asserts  []AtAssert
 	File     string
 	Line     int
@@ -118,7 +120,7 @@ type ContractSet struct {
 	assumeCount int
 }
 
-var clauseKeywords = map[string]bool{"ghost": true, "after": true, "requires": true, "ensures": true, "loop": true, "safe": true, "pure": true, "trusted": true, "at": true, "var": true, "let": true, "assert": true, "results": true}
+var clauseKeywords = map[string]bool{"assumed": true, "ghost": true, "after": true, "requires": true, "ensures": true, "loop": true, "safe": true, "pure": true, "trusted": true, "at": true, "var": true, "let": true, "assert": true, "results": true}
 var topKeywords = map[string]bool{"func": true, "spec": true, "axiom": true, "lemma": true, "bind": true, "structural": true}
 
 var propTagRe = regexp.MustCompile(`\[(C[0-9]+(?:\s*,\s*C[0-9]+)*)\]`)
@@ -421,6 +423,9 @@ func (cs *ContractSet) parseFile(repo, path string) error {
 				return fail(l, "safe outside func")
 			}
 			curF.Safe = true
+			for _, k := range strings.FieldsFunc(rest, func(r rune) bool { return r == ',' || r == ' ' }) {
+				curF.SafeKinds = append(curF.SafeKinds, k)
+			}
 		case "pure":
 			if curF == nil {
 				return fail(l, "pure outside func")
@@ -431,6 +436,12 @@ func (cs *ContractSet) parseFile(repo, path string) error {
 				return fail(l, "trusted outside func")
 			}
 			curF.Trusted = true
+		case "assumed":
+			// "assumed requires": the preconditions are assumed at call sites (a stated assumption about a dependency)
+			if curF == nil || strings.TrimSpace(rest) != "requires" {
+				return fail(l, "syntax: assumed requires")
+			}
+			curF.AssumeRequires = true
 		case "at":
 			if curF == nil {
 				return fail(l, "at outside func")
